@@ -57,4 +57,34 @@ example :
     convolve_gaussian_filter1d Int.ofNat id (fun m _ => m) P [] 1 (-1) 2 () 0 = some [3, 0, 1, 0, 3] ∧
     convolve_gaussian_filter1d Int.ofNat id (fun m _ => m) P [] 1 (-1) 4 () 0 = none := by decide
 
+section laplacian
+variable {K : Type} [Add K] [Sub K] [Div K] [Neg K] [LT K] [DecidableLT K]
+
+/-- `alpha = max(0, min(alpha, 1))` as Python evaluates it; `C06.clampAlpha` is this at `Float` -/
+def pyClamp01 (ofNat : Nat → K) (a : K) : K :=
+  let y := if ofNat 1 < a then ofNat 1 else a
+  if ofNat 0 < y then y else ofNat 0
+
+/-- `convolve.laplacian_2D` (current source) = `convolve(array as double, W, mode='nearest')` where the rows of `W`
+    are the model's `laplacianWeightsG` at the clamped `alpha`; `none` (= `raise`) exactly when the array is not 2-D.
+    For every ordered scalar type, every primitive instantiation and all arguments. -/
+theorem pybody_convolve_laplacian_2D_eq_model {A : Type} (ofNat : Nat → K) (ofInt : Int → K) (flit : Nat → Nat → K)
+    (P : LaplPrims K A) (array : A) (alpha : K) :
+    convolve_laplacian_2D ofNat ofInt flit P array alpha =
+      (if P.ndim (P.as_float array) ≠ 2 then none
+       else
+        let w := (laplacianWeightsG ofNat (pyClamp01 ofNat alpha)).toList
+        some (P.convolve (P.as_float array) [w.take 3, (w.drop 3).take 3, w.drop 6] "nearest")) := by
+  unfold convolve_laplacian_2D pyClamp01 laplacianWeightsG
+  by_cases h : P.ndim (P.as_float array) = 2 <;> simp [h]
+
+end laplacian
+
+/-- non-vacuity (integers): `alpha = 5` is clamped to 1, the centre weight is `-4 / 2`, the 1-D input is refused -/
+example :
+    let P : LaplPrims Int (List Int × Nat) := { as_float := id, ndim := fun a => a.2, convolve := fun _ w _ => (w.flatten, 2) }
+    convolve_laplacian_2D Int.ofNat id (fun m _ => m) P ([], 2) 5 = some ([0, 0, 0, 0, -2, 0, 0, 0, 0], 2) ∧
+    convolve_laplacian_2D Int.ofNat id (fun m _ => m) P ([], 2) 0 = some ([0, 1, 0, 1, -4, 1, 0, 1, 0], 2) ∧
+    convolve_laplacian_2D Int.ofNat id (fun m _ => m) P ([], 1) 0 = none := by decide
+
 end Mahotas
